@@ -487,6 +487,42 @@ def _leg_methods(case, add):
             lb = bb if isinstance(bb, tuple) else (bb,)
             if not all(np.allclose(np.asarray(p), np.asarray(q), rtol=1e-12, atol=1e-14, equal_nan=True) for p, q in zip(la, lb)):
                 add(f"methods|{g._cls(s)}|{m}", f"{g._cls(s)}.{m} differs between the wrapped object and unwrap(object)")
+    # a whole sub-bijection frozen with NonTrainable after construction (eqx.tree_at(..., replace_fn=NonTrainable)): every
+    # method of the enclosing combinator must give the result of the unwrapped object (shape / cond_shape may be properties
+    # that read the wrapped child)
+    import equinox as eqx
+
+    from flowjax import wrappers as W
+
+    aff = {"k": "Affine", "shape": [3]}
+    combos = [{"k": "Invert", "c": aff}, {"k": "Chain", "c": [aff, {"k": "Tanh", "shape": [3]}]}, {"k": "Concatenate", "c": [aff, aff], "axis": 0},
+              {"k": "Stack", "c": [aff, aff], "axis": 0}, {"k": "Reshape", "c": aff, "shape": [3, 1]}, {"k": "Scan", "c": aff, "n": 2},
+              {"k": "Vmap", "c": {"k": "Affine", "shape": []}, "mode": "mapped", "n": 3, "cond_axis": None},
+              {"k": "Partial", "c": {"k": "Affine", "shape": []}, "idx": {"t": "int", "v": 1}, "shape": [3]},
+              {"k": "Embed", "c": {"k": "AddCond", "shape": [2], "cond": [2]}, "raw": [3]}]
+    for s in combos:
+        try:
+            ii = g.info(s)
+            b = g.build(s, 0, 1, case["seed"])
+        except Exception:
+            continue  # not expressible in this grammar version: nothing to compare
+        where = (lambda m: m.bijections[0]) if hasattr(b, "bijections") else (lambda m: m.bijection)
+        wb = eqx.tree_at(where, b, replace_fn=W.NonTrainable)
+        ub = unwrap(wb)
+        x = jnp.full(ii.shape, 0.37)
+        c = None if ii.cond_shape is None else jnp.full(ii.cond_shape, -0.6)
+        for m in ("transform", "transform_and_log_det", "inverse", "inverse_and_log_det"):
+            tr += 1
+            want = getattr(ub, m)(x, c)
+            try:
+                got = getattr(wb, m)(x, c)
+            except Exception as e:
+                add(f"methods|frozen-child|{s['k']}|raises|{type(e).__name__}", f"{s['k']} whose child was frozen with NonTrainable: {m} raises {type(e).__name__}: {str(e)[:120]} (works after unwrap)")
+                continue
+            la = got if isinstance(got, tuple) else (got,)
+            lb = want if isinstance(want, tuple) else (want,)
+            if not all(np.allclose(np.asarray(p_), np.asarray(q_), rtol=1e-12, atol=1e-14) for p_, q_ in zip(la, lb)):
+                add(f"methods|frozen-child|{s['k']}|value", f"{s['k']} whose child was frozen with NonTrainable: {m} differs from the unwrapped object")
     for name in ("Normal", "Coupling", "coupling_flow", "tri_spline_flow", "BNAF"):
         d = build_model(name, case["seed"])
         ud = unwrap(d)
